@@ -21,10 +21,12 @@ SubM(id, name, parent, n, w, dy, dx, rows, cols, bands) ==
      rows |-> rows, cols |-> cols, bands |-> bands, mode |-> "v", nodes |-> <<>>]
 
 \* a descriptor: generated files carry their abstract content, shipped files only their size
-Gen(fmt, kind, subs, order, endian, layout, faults) ==
-    [fmt |-> fmt, kind |-> kind, frame |-> IF kind = "projected" THEN "projected" ELSE "angular",
+GenF(fmt, kind, frame, subs, order, endian, layout, faults) ==
+    [fmt |-> fmt, kind |-> kind, frame |-> frame,
      scale |-> IF kind = "projected" THEN 1 ELSE 4096, subs |-> WithNodes(subs), order |-> order, endian |-> endian,
      layout |-> layout, faults |-> faults, shipped |-> "", len |-> 0, hdr |-> {}]
+Gen(fmt, kind, subs, order, endian, layout, faults) ==
+    GenF(fmt, kind, IF kind = "projected" THEN "projected" ELSE "angular", subs, order, endian, layout, faults)
 Shipped(fmt, name, len, hdr) ==
     [fmt |-> fmt, kind |-> "", frame |-> "", scale |-> 1, subs |-> <<>>, order |-> <<>>, endian |-> "", layout |-> 0,
      faults |-> TRUE, shipped |-> name, len |-> len, hdr |-> hdr]
@@ -38,6 +40,10 @@ SetToSeq(S) == LET RECURSIVE F(_) F(T) == IF T = {} THEN <<>> ELSE LET a == CHOO
 GravAll(faultsOn) ==
     SetToSeq({Gen("gravsoft", KindOf(x[1], x[4]), G1(x[2][1], x[2][2], x[1]), <<1>>, "le", x[3], <<x[1], x[2], x[3], x[4]>> \in faultsOn)
               : x \in {y \in (1..3) \X {<<2, 2>>, <<2, 3>>, <<3, 2>>} \X Layouts \X BOOLEAN : y[4] => y[1] = 1}})
+\* projected grids with one pair of boundaries (or, negative, one of each pair) within [-720, 720]
+ProjFrames == {"projected_w0", "projected_s0", "projected_neg"}
+GravProj == SetToSeq({GenF("gravsoft", "projected", x[1], G1(x[2][1], x[2][2], 1), <<1>>, "le", x[3], FALSE)
+                      : x \in ProjFrames \X {<<2, 2>>, <<2, 3>>, <<3, 2>>} \X {0, 2}})
 GravFaultsQ == {<<2, <<2, 2>>, 0, FALSE>>, <<1, <<2, 3>>, 1, FALSE>>, <<3, <<2, 2>>, 2, FALSE>>, <<1, <<3, 2>>, 3, TRUE>>}
 GravFaultsT == {y \in (1..3) \X {<<2, 2>>, <<2, 3>>, <<3, 2>>} \X Layouts \X BOOLEAN : y[4] => y[1] = 1}
 
@@ -63,8 +69,8 @@ ShipSmall == << Shipped("ntv2", "gsb/5458.gsb", 1088, 0..351),
                 Shipped("gravsoft", "deformation/another_test.deformation", 742, 0..94) >>
 ShipLarge == << Shipped("ntv2", "gsb/100800401.gsb", 25824, 0..351) >>
 
-FilesQ == GravAll(GravFaultsQ) \o NtAll(NtFaultsQ) \o ShipSmall
-FilesT == GravAll(GravFaultsT) \o NtAll(NtFaultsT) \o ShipSmall \o ShipLarge
+FilesQ == GravAll(GravFaultsQ) \o GravProj \o NtAll(NtFaultsQ) \o ShipSmall
+FilesT == GravAll(GravFaultsT) \o GravProj \o NtAll(NtFaultsT) \o ShipSmall \o ShipLarge
 
 \* ---- behaviour ----------------------------------------------------------------
 F == FilesC[fi]
@@ -96,6 +102,12 @@ RoundTripInv == (AtFile /\ Generated) =>
          d.ok /\ [Geometry(d.subs[1]) EXCEPT !.name = F.subs[1].name] = Geometry(F.subs[1])
     ELSE LET d == DecodeNtv2(Recs(F, F.order)) IN
          d.ok /\ GeomSet(d.subs) = GeomSet(F.subs) /\ Queryable(d)
+\* the generated files are told apart by the reader's rule exactly as they were meant, and the model
+\* contains projected grids on which `any boundary` and `all boundaries` differ
+FrameRuleInv == (AtFile /\ Generated /\ F.fmt = "gravsoft") =>
+    (ProjectedByRule(F.subs[1], F.frame) <=> F.frame # "angular")
+FrameRuleWitness == \E i \in 1..Len(FilesC) : LET f == FilesC[i] IN
+    f.shipped = "" /\ f.fmt = "gravsoft" /\ ProjectedByRule(f.subs[1], f.frame) /\ ~AllBoundsLarge(f.subs[1], f.frame)
 \* the decoded grid does not depend on the layout / on the order of the sub-grids
 LayoutInv == (AtFile /\ Generated) =>
     IF F.fmt = "gravsoft"
